@@ -119,6 +119,7 @@ class ReverseProxy(TcpUpstreamConnectionHandler, HttpWebServerBasePlugin):
             reuse = self.upstream is not None and \
                 not self.upstream.closed and \
                 self.upstream.addr == (text_(self.choice.hostname), port)
+            previous = self.upstream
             if not reuse:
                 self.initialize_upstream(text_(self.choice.hostname), port)
             assert self.upstream
@@ -131,6 +132,11 @@ class ReverseProxy(TcpUpstreamConnectionHandler, HttpWebServerBasePlugin):
                             as_non_blocking=True,
                             ca_file=self.flags.ca_file,
                         )
+                    # Connection with the previous upstream, if any, is closed only
+                    # now, so that its descriptor number, which is still registered
+                    # with the event loop, is not taken by the new connection.
+                    if previous is not None and not previous.closed:
+                        previous.close()
                 request.path = self.choice.remainder
                 self.upstream.queue(
                     memoryview(
